@@ -30,6 +30,17 @@
                                                 kind ∈ p2pk p2pkh ms p2sh-p2pk p2sh-p2pkh p2sh-ms, keys / sigs
                                                 `,`-separated hex; compared with what the library builds
 
+    c05.seq     txs scripts steps               a HISTORY: several calls in one case (state left behind by an earlier
+                                                call must not matter; the model answers each step statelessly).
+        txs `~`-separated transactions, scripts `,`-separated hex, steps `~`-separated, fields `!`-separated:
+          F                          neutral first step                                   → `ok`
+          V!sig!spk!flags!tx!idx     VerifyScript(scripts[sig], scripts[spk], txs[tx], idx) → verdict (both contexts)
+          H!sc!tx!idx!ht             RawSignatureHash(scripts[sc], txs[tx], idx, ht)       → digest hex [`:err`]
+          E!tx!edit                  the edit applied IN PLACE to txs[tx]                  → `applied` | `inapplicable`
+          K!n                        one key object signs n digests; entry (j,k) = signature j verifies digest k
+                                     → the n×n identity pattern `100/010/001`
+        reply: the outcomes joined by `;`
+
   edit syntax:  ph:k:hex | pn:k:n | ss:k:hex | sq:k:n | va:k:int | pk:k:hex | ii:k:txin | ri:k | wi:k:l
               | io:k:txout | ro:k | wo:k:l | lt:n | ve:int | wt:wit         (txin/txout/wit as in TxFmt)
 -/
@@ -142,6 +153,37 @@ def template (kind : String) (m : Nat) (keys sigs : List Bytes) : Option (Bytes 
       some (p2shScript (hash160 r), p2shScriptSig (multisigScriptSig sigs) r)
   | _, _, _ => none
 
+def seqStep (scripts : Array Bytes) (txs : Array Tx) (step : String) : Option (String × Array Tx) :=
+  match step.splitOn "!" with
+  | ["F"] => some ("ok", txs)
+  | ["V", a, b, fl, t, idx] => do
+      let sig ← scripts[(← parseNat? a)]?
+      let spk ← scripts[(← parseNat? b)]?
+      let tx ← txs[(← parseNat? t)]?
+      pure (verify sig spk (← parseFlags? fl) tx (← parseNat? idx), txs)
+  | ["H", a, t, idx, ht] => do
+      let sc ← scripts[(← parseNat? a)]?
+      let tx ← txs[(← parseNat? t)]?
+      let (d, err) := Spec.Sighash.legacySighash sc tx (← parseNat? idx) (← parseNat? ht)
+      pure (toHex d ++ (if err then ":err" else ""), txs)
+  | "E" :: t :: rest => do
+      let k ← parseNat? t
+      let tx ← txs[k]?
+      let e ← parseEdit? ("!".intercalate rest)
+      if applicable e tx then pure ("applied", txs.set! k (apply e tx)) else pure ("inapplicable", txs)
+  | ["K", n] => do
+      let n ← parseNat? n
+      pure ("/".intercalate ((List.range n).map fun j =>
+        String.ofList ((List.range n).map fun k => if j = k then '1' else '0')), txs)
+  | _ => none
+
+def runSeq (scripts : Array Bytes) : Array Tx → List String → Option (List String)
+  | _, [] => some []
+  | txs, st :: rest => do
+      let (o, txs') ← seqStep scripts txs st
+      let os ← runSeq scripts txs' rest
+      pure (o :: os)
+
 def handle (op : String) (args : List String) : Option String :=
   match op, args with
   | "c05.table", [ht, i, e] => some <|
@@ -159,6 +201,13 @@ def handle (op : String) (args : List String) : Option String :=
            | some (spk, ssig) => toHex spk ++ "#" ++ toHex ssig
            | none => badArgs)
       | _, _, _ => badArgs
+  | "c05.seq", [txs, scripts, steps] => some <|
+      match (splitList txs '~').mapM TxFmt.parseTx?, parseHexList? scripts with
+      | some txs, some scripts =>
+          (match runSeq scripts.toArray txs.toArray (splitList steps '~') with
+           | some os => ";".intercalate os
+           | none => badArgs)
+      | _, _ => badArgs
   | "c05.verify", [sig, spk, fl, tx, idx] => some <|
       match parseHex? sig, parseHex? spk, parseFlags? fl, TxFmt.parseTx? tx, parseNat? idx with
       | some sig, some spk, some fl, some tx, some idx => verify sig spk fl tx idx
